@@ -96,7 +96,10 @@ def sum_stats(stats_list):
 
 
 def subbatch_case(rxns):
-    out = pipeline.run({"rxns": list(rxns)})
+    n_jobs = 1
+    if isinstance(rxns, dict):
+        rxns, n_jobs = rxns["rxns"], rxns["n_jobs"]
+    out = pipeline.run({"rxns": list(rxns), "n_jobs": n_jobs})
     bad = compare_batch(list(rxns), out["rows"], "one batch")
     want = sum_stats([alone(r)[1] for r in rxns])
     if out["stats"] != want:
@@ -247,6 +250,16 @@ def run(tier, seed):
     for s, bad in zip(subs, ra):
         for b in bad:
             res.add(Violation("sub-batch", {"rxns": list(s)}, None, None, b["key"], b["what"]))
+    # the same triples (and quadruples of MCS-bound reactions) with Balancers that are told to use 2 and 3
+    # workers (the controlled seam still runs the tasks inline: only code that branches on n_jobs differs)
+    mcs_bound = [B06[0], B06[8], B06[5], B06[10], EXTRA]
+    wsubs = [list(t) for t in (subs if thorough else covering_triples()) if len(t) == 3]
+    wsubs += [list(p) for k in (3, 4, 5) for p in itertools.permutations(mcs_bound, k)][:: (1 if thorough else 7)]
+    wjobs = [{"rxns": t, "n_jobs": nj} for t in wsubs for nj in (2, 3)]
+    rw = pmap("checks.c06:subbatch_case", wjobs, chunk=4, seed=seed, timeout=7200)
+    for j, bad in zip(wjobs, rw):
+        for b in bad:
+            res.add(Violation("sub-batch", j, None, None, ["n_jobs"] + b["key"], b["what"] + " [n_jobs={}]".format(j["n_jobs"])))
     full = B06 + [EXTRA]
     pj = [{"rxns": full, "bs": bs} for bs in range(1, len(full) + 1)]
     if thorough:
@@ -308,12 +321,12 @@ def run(tier, seed):
         "choice_points_per_run": roots[0]["points"],
         "parallel_calls_per_run": roots[0]["parallel_calls"],
         "distinct_outcomes": len(outcomes),
-        "sub_batches": len(subs),
+        "sub_batches": len(subs) + len(wjobs),
         "partitions": len(pj),
         "real_joblib_worker_counts": list(ks),
         "evaluations": n_exec + len(subs) + len(pj) + len(reps),
         "distinct_nontrivial": len(subs) + n_exec,
-        "rule": "(a) every ordered sub-batch of size 1..2{} of the 16-reaction base set, the 17-reaction set under every "
+        "rule": "(a) every ordered sub-batch of size 1..2{} (triples and 3..5-tuples of MCS-bound reactions also with n_jobs 2 and 3) of the 16-reaction base set, the 17-reaction set under every "
                 "batch size; (b) for 3 batches of 3 rows every Parallel call x every non-default task order "
                 "(all 3! orders) with <= {} order deviation(s) x isolation {}; (c) real joblib with n_jobs in {}; "
                 "(d) repeated runs on one instance.  distinct_outcomes = distinct row tables seen over all schedules "
@@ -333,7 +346,8 @@ def run(tier, seed):
 def replay(v):
     c = v.case
     if v.sub == "sub-batch":
-        return [Violation(v.sub, c, None, None, b["key"], b["what"]) for b in subbatch_case(c["rxns"]) if b["key"] == v.key]
+        pre = ["n_jobs"] if "n_jobs" in c else []
+        return [Violation(v.sub, c, None, None, pre + b["key"], b["what"]) for b in subbatch_case(c if pre else c["rxns"]) if pre + b["key"] == v.key]
     if v.sub == "partition":
         if c["bs"] == "all":
             seen = {json.dumps(partition_case({"rxns": c["rxns"], "bs": bs})["stats"], sort_keys=True) for bs in range(1, len(c["rxns"]) + 1)}
